@@ -1,16 +1,28 @@
 #!/bin/bash
-# developer tool: run every check against every seeded change (and the four fix reverts); writes seeded/MATRIX.tsv
-cd /repo || exit 2
-if [ -n "$(git status --porcelain --untracked-files=no)" ]; then echo "/repo dirty"; exit 2; fi
+# developer tool: run every check against every seeded change (and the four fix reverts); writes seeded/MATRIX.tsv.
+# Works in N scratch worktrees of /repo's HEAD (outside /repo and /verif; removed at the end), so /repo itself is
+# never patched and the registered checks may run meanwhile.   usage: matrix.sh [glob] [workers]
+PAT="${1:-*}"; N="${2:-8}"
 ALL="C01 C02 C03 C04 C05 C06 C07 C08 C09 C10 C11 C12 C13 C14 C15 C16 C17 C18 C19"
-OUT=/verif/seeded/MATRIX.tsv
-[ -z "${1:-}" ] && : > $OUT
-for d in /verif/seeded/*/ ; do
-  id=$(basename $d)
-  [ -f $d/patch.diff ] || continue
-  [ -n "${1:-}" ] && [[ "$id" != $1 ]] && continue
-  git apply $d/patch.diff || { echo "$id does-not-apply" >> $OUT; continue; }
-  res=$(cd /verif && ./plv multi $ALL 2>&1 | grep -E "^C[0-9]+ (VIOLATION|ERROR)" | awk '{print $1}' | tr '\n' ' ')
-  git checkout -- .
-  echo -e "$id\t$res" | tee -a $OUT
-done
+MX=/tmp/plvmx; OUT=/verif/seeded/MATRIX.tsv
+rm -rf $MX; mkdir -p $MX; git -C /repo worktree prune
+ids=(); for d in /verif/seeded/*/ ; do id=$(basename $d); [ -f $d/patch.diff ] && [[ "$id" == $PAT ]] && ids+=("$id"); done
+worker() {
+  k=$1; wt=$MX/w$k
+  git -C /repo worktree add --detach -f $wt HEAD >/dev/null 2>&1 || { echo "worktree $k failed"; return; }
+  i=0
+  for id in "${ids[@]}"; do
+    i=$((i+1)); [ $(( i % N )) -eq $k ] || continue
+    if ! git -C $wt apply /verif/seeded/$id/patch.diff 2>/dev/null; then echo -e "$id\tdoes-not-apply" >> $MX/rows.$k; continue; fi
+    res=$(cd /verif && PLV_REPO=$wt PLV_WORK_TAG=-mx$k ./plv multi $ALL 2>&1 | grep -E "^C[0-9]+ (VIOLATION|ERROR)" | awk '{print $1}' | tr '\n' ' ')
+    git -C $wt checkout -- . ; git -C $wt clean -fdq
+    echo -e "$id\t$res" >> $MX/rows.$k
+  done
+  git -C /repo worktree remove --force $wt
+  rm -rf /verif/.work/*-mx$k
+}
+for k in $(seq 0 $((N-1))); do worker $k & done; wait
+if [ "$PAT" = "*" ]; then cat $MX/rows.* | sort > $OUT; else
+  cat $MX/rows.* | while IFS=$'\t' read id res; do grep -v "^$id	" $OUT > $OUT.tmp; mv $OUT.tmp $OUT; echo -e "$id\t$res" >> $OUT; done; sort -o $OUT $OUT; fi
+cat $MX/rows.* | sort
+rm -rf $MX; git -C /repo worktree prune
